@@ -157,7 +157,7 @@ inline void sha1::process_block()
 
 inline void sha1::get_digest(digest_type digest)
 {
-    std::size_t bit_count = byte_count_*8;
+    unsigned long long bit_count = static_cast<unsigned long long>(byte_count_)*8;
 
     // append the bit '1' to the message
     process_byte(0x80);
@@ -183,10 +183,10 @@ inline void sha1::get_digest(digest_type digest)
 
     // append length of message (before pre-processing) 
     // as a 64-bit big-endian integer
-    process_byte(0);
-    process_byte(0);
-    process_byte(0);
-    process_byte(0);
+    process_byte( static_cast<unsigned char>((bit_count>>56) & 0xFF));
+    process_byte( static_cast<unsigned char>((bit_count>>48) & 0xFF));
+    process_byte( static_cast<unsigned char>((bit_count>>40) & 0xFF));
+    process_byte( static_cast<unsigned char>((bit_count>>32) & 0xFF));
     process_byte( static_cast<unsigned char>((bit_count>>24) & 0xFF));
     process_byte( static_cast<unsigned char>((bit_count>>16) & 0xFF));
     process_byte( static_cast<unsigned char>((bit_count>>8 ) & 0xFF));
